@@ -1,4 +1,5 @@
 import PhyVerif.Model.C10
+import PhyVerif.Spec.C03
 /-! Abstract "last write wins" state of C10. -/
 namespace PhyVerif.C10
 open PhyVerif.C18 (Cell)
@@ -24,8 +25,44 @@ def OwnOps (ops : List Op) : Prop :=
     | .saveMeta field _ => field ≠ "cluster_id"
     | _ => True
 
+variable {α : Type} [Zero α]
+
 /-- the metadata a reload shows for one field, as (id, value) pairs -/
-def fieldView (parse : String → Cell) (d : Disk) (field : String) : Option (List (Cell × Cell)) :=
+def fieldView (parse : String → Cell) (d : Disk α) (field : String) : Option (List (Cell × Cell)) :=
   (metadataView parse d.files).lookup field
+
+/-- what ONE file says about a field: nothing (`none`) when the file is `cluster_info.*`, is unreadable, or has
+no row giving the field a value next to a `cluster_id` -/
+def fileField (parse : String → Cell) (field : String) (p : FName × File) : Option (List (Cell × Cell)) :=
+  if p.1.1 == "cluster_info" then none else
+  (loadMetadata parse p.2).bind fun fields => fields.reverse.lookup field
+
+/-- after a `save_metadata(field, …)` the rest of the history leaves that file alone: no later save of the same
+field (that would be the LAST save) and no foreign write to `cluster_<field>.tsv` itself (the property speaks of
+metadata in OTHER files). Everything else — saves of other fields, foreign files of any name and content, exports,
+close, reload — is allowed. -/
+def KeepsSaved (field : String) (post : List Op) : Prop :=
+  ∀ op ∈ post, match op with
+    | .saveMeta f _ => f ≠ field
+    | .writeFile s _ => s ≠ ("cluster_" ++ field, true)
+    | _ => True
+
+/-- the fixed part of a dataset in scope: what `load_model` requires of the files a history never writes -/
+structure FixedOK (nch : Nat) (fx : Fixed α) : Prop where
+  rect : C03.Rect fx.raw nch
+  tile : PhyVerif.C16.intervalsTile fx.raw.length fx.chunks = true      -- C16 theorems
+  sorted : fx.spikeSamples.Pairwise (· ≤ ·)                             -- the loader rejects non-monotone times (C04)
+  inrange : ∀ s ∈ fx.spikeSamples, 0 ≤ s ∧ s < fx.raw.length
+  tlen : fx.spikeTemplates.length = fx.spikeSamples.length
+  tbound : ∀ t ∈ fx.spikeTemplates, t < fx.orders.length
+  ord : ∀ o ∈ fx.orders, C03.ChOK nch o
+  nsw : 0 < fx.nsw
+  closest : 0 < fx.nClosest
+
+/-- the selections in scope: what `SpikeSelector` returns — increasing distinct ids of existing spikes -/
+def SelOK (fx : Fixed α) (ops : List Op) : Prop :=
+  ∀ op ∈ ops, match op with
+    | .saveSubset sel _ => sel.Pairwise (· < ·) ∧ ∀ i ∈ sel, i < fx.spikeSamples.length
+    | _ => True
 
 end PhyVerif.C10
